@@ -160,6 +160,30 @@ def codes_of(stack, level_codes):
     return tuple(out)
 
 
+class Echo:
+    """a formatting argument whose __format__ shows the format spec it was given: '[' + spec + ']'"""
+
+    def __format__(self, spec):
+        return "[" + spec + "]"
+
+    def __repr__(self):
+        return "Echo()"
+
+
+def mat(kwargs):
+    """scenario kwargs are JSON; {"__obj__": …} markers stand for objects with their own __format__"""
+    import datetime as _dt
+    out = {}
+    for k, v in (kwargs or {}).items():
+        if isinstance(v, dict) and v.get("__obj__") == "echo":
+            out[k] = Echo()
+        elif isinstance(v, dict) and v.get("__obj__") == "datetime":
+            out[k] = _dt.datetime(2020, 1, 2, 3, 4, 5)
+        else:
+            out[k] = v
+    return out
+
+
 def read_message(msg, args, kwargs):
     """leaf tokens of a coloured message: literal text is markup, formatted values are plain text"""
     toks = []
@@ -236,7 +260,7 @@ TAG_POOL = sorted(DOC) + ["level", "lvl"]
 FORM_POOL = ["fg 86", "fg 255", "bg 42", "bg 9", "fg 0", "fg 007", "fg #00005f", "fg #EE1", "bg #AF5FD7", "bg #fff",
              "fg 0,95,0", "bg 72,119,65", "fg 255,255,255", "fg red", "fg RED", "bg red", "bg LIGHT-CYAN",
              "fg light-blue", "fg le", "bg LC", "fg #aBc", "bg 0,0,0"]
-BAD_TAGS = ["foo", "", "fg", "bg ", "fg 256", "fg 1,2", "fg 1,2,3,4", "fg #ffff", "fg #gggggg", "fg  red", "bg 300,1,1",
+BAD_TAGS = ["fg #+1+2+3", "bg #-a-b-c", "fg #\u0663\u0663\u0663", "fg #\uff11\uff12\uff13", "fg #0x10x20x3", "bg #+f+", "fg #1_2", "foo", "", "fg", "bg ", "fg 256", "fg 1,2", "fg 1,2,3,4", "fg #ffff", "fg #gggggg", "fg  red", "bg 300,1,1",
             "Red", "BOLD", "light-RED", "fg bold", "bg b", "fg K", "bg r,g,b", "fg -1", "fg 1.5", "fg ,,", "LEVEL",
             "tag", "b,", "fg #12345", "fg 1,2,", "fg\tred", "fg\xa0red", "bg\n1"]
 TEXTS = ["a", "b", "xy", " ", "é", "[0m", ";", "m", "1", "hello world", "Z", "=", "\t", "/", ">", "&", "[31m", "q"]
@@ -246,6 +270,19 @@ LEVEL_COLORS = ["<red>", "<bold>", "<red><bold>", "<fg 12><BLUE>", "", "<lk><u><
 
 def gen_text(rng):
     return rng.choice(TEXTS) if not rng.chance(15) else rng.choice(TEXTS) + rng.choice(TEXTS)
+
+
+HEX_ALPHABET = list("0123456789abcdefABCDEF") + list("0123456789abcdefABCDEF") + list("+-_ gG\u0663\uff13\u0969xX.")
+
+
+def gen_hex_candidate(rng, spaces=True):
+    """<fg #…>/<bg #…> candidates of (mostly) length 3 and 6 over hex digits, signs, underscores, blanks, non-ASCII
+    decimal digits, 'x' – only [0-9a-fA-F]{3} and {6} are colours"""
+    n = rng.choice([3, 6, 3, 6, 3, 6, 4, 5, 7, 2])
+    body = "".join(rng.choice(HEX_ALPHABET) for _ in range(n))
+    if not spaces:
+        body = body.replace(" ", "+")
+    return rng.choice(["fg #", "bg #"]) + body
 
 
 def gen_tag(rng):
@@ -286,7 +323,7 @@ def gen_markup(rng, depth, leaf, stats, malformed=False, budget=None):
                 elif mode == 1:
                     opening = ""
                 elif mode == 2:
-                    opening = "<%s>" % rng.choice(BAD_TAGS)
+                    opening = "<%s>" % (rng.choice(BAD_TAGS) if not rng.chance(30) else gen_hex_candidate(rng, spaces=False))
                 elif mode == 3:
                     close = "</%s>" % rng.choice(TAG_POOL)
                 else:
@@ -483,7 +520,7 @@ def run_scenario(sc):
             if "extra" in sc:
                 o = o.bind(**sc["extra"])
             try:
-                o.log(st["level"], st["message"], *st.get("args", []), **st.get("kwargs", {}))
+                o.log(st["level"], st["message"], *st.get("args", []), **mat(st.get("kwargs", {})))
             except Exception as e:  # noqa
                 results.append(("log-error", core.err_kind(e), len(col), len(pla)))
                 continue
@@ -501,6 +538,9 @@ def run_scenario(sc):
 FIELDS = ["{level}", "{level.name}", "{extra[k]}", "{extra[k]!r}", "{extra[k]:>6}", "{level.no:04d}", "{extra[m]}",
           "{{", "}}", "{level.name:^9}", "{extra[k]:{extra[w]}}"]
 VALUES = ["v", "<red>", "</>", "\\<b>", "a<b>c</b>", "{", "}", "{message}", "<level>x</level>", "é", "", "<fg 1>"]
+SPEC_FIELDS = ["{x:<>6}", "{x:><7}", "{x:<<5}", "{x:>>4}", "{x!r:<>9}", "{e:<b>x</b>}", "{e:<>6}", "{e:\\<b>}", "{e:</>}",
+               "{e:<red>}", "{e:a<lvl>b</lvl>}", "{t:%Y <b>x</b> %m}", "{t:%H\\<i>%M}", "{e:\\\\<b>}", "{e:<fg #fff>q</>}",
+               "{e!s:<>8}", "{e:{x}}", "{e:<b>{x}</b>}", "{e:<unknown>}", "{e:</b>}"]
 F10_FIELDS = ["{message:>10}", "{message:.3}", "{message!r}", "{message!s:<8}", "{message:^12}", "{message:5}"]
 
 
@@ -597,9 +637,13 @@ def gen_scenario(rng, stats):
         with_args = rng.chance(35)
         if with_args:
             def mleaf(r):
-                k = r.below(6)
-                if k < 2:
+                k = r.below(12)
+                if k < 4:
                     return r.choice(["{}", "{x}", "{x!r}", "{x:>5}", "{{", "}}", "{}"])
+                if k < 6:
+                    # the format SPEC of an argument is argument text too: never markup
+                    stats("scenario:spec-with-markup")
+                    return r.choice(SPEC_FIELDS)
                 return gen_text(r)
         else:
             def mleaf(r):
@@ -610,7 +654,7 @@ def gen_scenario(rng, stats):
         if with_args:
             nauto = len(re.findall(r"(?<!\{)\{\}", msg.replace("{{", "")))
             st["args"] = [rng.choice(VALUES) for _ in range(nauto)]
-            st["kwargs"] = {"x": rng.choice(VALUES)}
+            st["kwargs"] = {"x": rng.choice(VALUES), "e": {"__obj__": "echo"}, "t": {"__obj__": "datetime"}}
         st["nest"], st["esc"] = max(nest, n2), esc + e2
         steps.append(st)
     sc["steps"] = steps
@@ -700,7 +744,7 @@ def judge_scenario(ctx, sc, results, origin):
             continue
         res = results[ri] if ri < len(results) else ("missing",)
         ri += 1
-        msg, args, kwargs = st["message"], st.get("args", []), st.get("kwargs", {})
+        msg, args, kwargs = st["message"], st.get("args", []), mat(st.get("kwargs", {}))
         try:
             mtoks = read_message(msg, args, kwargs)
         except (ValueError, KeyError, IndexError, AttributeError):
@@ -858,7 +902,7 @@ def pair_lines(sc, results):
         ri += 1
         if st.get("raw"):
             continue
-        msg, args, kwargs = st["message"], st.get("args", []), st.get("kwargs", {})
+        msg, args, kwargs = st["message"], st.get("args", []), mat(st.get("kwargs", {}))
         feeds = []
         try:
             if not args and not kwargs:
@@ -1001,6 +1045,8 @@ def run(ctx):
         tags.append(rng.choice(["fg #", "bg #"]) + h)
         tags.append(rng.choice(["fg ", "bg "]) + rng.choice(sorted(DOC)))
         tags.append(rng.choice(["fg ", "bg "]) + rng.choice(sorted(DOC)).swapcase())
+        tags.append(gen_hex_candidate(rng))
+        tags.append(gen_hex_candidate(rng))
     for tag in tags:
         got = impl_code(tag)
         ctx.case(("code", tag))
